@@ -22,6 +22,7 @@ import numpy as np
 from ..drivers import molecules as M
 from ..drivers import rigid as RG
 from ..drivers import sp
+from .. import warm
 from ..pool import is_error, is_timeout, pmap
 
 PID = "C02"
@@ -37,7 +38,8 @@ RULE = (
 ASSUMPTIONS = [
     "SO(3) is represented by two orbits of the octahedral group, the cones around the six axis directions and three "
     "translations; orientations outside are not decided",
-    "molecule alphabet of the tier; neutral closed-shell molecules (the dipole of an ion is origin dependent)",
+    "molecule alphabet of the tier; neutral molecules (the dipole of an ion is origin dependent); closed shell, plus two "
+    "UHF doublets in the thorough tier",
     "CPU, float64; scf_eps 1e-11, CIS/RPA tolerance 1e-9; molecules reported notconverged are excluded and counted",
     "excited-state vectors are compared for the non-degenerate states of H2CO only (degenerate subspaces have no "
     "state-wise covariance); NAC and transition dipoles up to the free sign of each state",
@@ -86,9 +88,9 @@ def _has(method, name):
 def configs(tier):
     out = []
 
-    def add(mol, method, mode, exc=None, active=0):
+    def add(mol, method, mode, exc=None, active=0, uhf=False):
         if _has(method, mol):
-            out.append(dict(mol=mol, method=method, mode=mode, exc=exc, active=active))
+            out.append(dict(mol=mol, method=method, mode=mode, exc=exc, active=active, uhf=uhf))
 
     sp_methods = ["MNDO", "AM1", "PM3", "PM6_SP"]
     modes = ["autodiff", "analytical", "semi_numerical"]
@@ -130,11 +132,15 @@ def configs(tier):
             add("H2CO", me, "autodiff", exc="cis", active=0)
             add("H2CO", me, "analytical", exc="rpa", active=1)
         add("H2CO", "AM1", "autodiff", exc="cis", active=1)
+        # open-shell (UHF) doublets
+        for mol in ("CH3", "NH2"):
+            for me in ("AM1", "PM3"):
+                add(mol, me, "autodiff", uhf=True)
     return out
 
 
 def ckey(c):
-    e = f"{c['exc']}{c['active']}" if c["exc"] else "S0"
+    e = f"{c['exc']}{c['active']}" if c["exc"] else ("UHF" if c.get("uhf") else "S0")
     return f"{c['mol']}|{c['method']}|{c['mode']}|{e}"
 
 
@@ -146,7 +152,7 @@ def make_params(c):
             extra["nonadiabatic"] = {"compute_nac": True}
         if c["mode"] == "autodiff" and c["active"] > 0:
             extra["scf_backward"] = 1
-    return sp.make_params(c["method"], eps=EPS, force_mode=c["mode"], **extra)
+    return sp.make_params(c["method"], eps=EPS, force_mode=c["mode"], uhf=bool(c.get("uhf")), **extra)
 
 
 # ------------------------------------------------------------------ the state space of one configuration
@@ -330,6 +336,7 @@ def _desc(c, seed, rec, kind):
 
 
 def run(chk, tier, seed):
+    warm()  # import torch + seqm once in the parent; the forked children inherit them
     C = cay()
     cfgs = configs(tier)
     tasks = []
